@@ -1928,7 +1928,7 @@ func (a *align) InversePositions(sites []int) (invsites []int, err error) {
 	invsites = make([]int, 0)
 
 	for _, s := range sites {
-		if s < 0 || s > a.Length() {
+		if s < 0 || s >= a.Length() {
 			err = fmt.Errorf("site is outside the alignment")
 			return
 		}
